@@ -161,6 +161,25 @@ func TestC03(t *testing.T) {
 		}
 	}
 
+	// KK impostors: the initiator presents the public key the responder has
+	// stored (a) but holds another private key (x); it knows the responder's
+	// public key (b).
+	for a := 0; a < 4; a++ {
+		for b := 0; b < 4; b++ {
+			for x := 4; x < 6; x++ {
+				if a == b {
+					continue
+				}
+				jobs = append(jobs, job{
+					label: fmt.Sprintf("KK impostor: presents the public key of %d, holds the private key of %d, talks to responder %d", a, x, b),
+					class: "KK-impostor",
+					ini:   party{local: x, hasImpostor: true, impostorOf: a, remote: b, min: 2, max: 2, ephTag: "i"},
+					rsp:   party{local: b, remote: a, min: 2, max: 2, auth: authPayload(64), ephTag: "r"},
+				})
+			}
+		}
+	}
+
 	// real-scrypt jobs run first, sequentially (the cost parameter is a
 	// package variable)
 	runJob := func(j job) {
